@@ -266,3 +266,101 @@ func ColdOpenStorm(tmp string, disk bool, goroutines, rounds int, r *rng.R) (ops
 	}
 	return ops, problems
 }
+
+// ColdCreateStorm: several goroutines open a bucket that does not exist yet (CreateOrOpen) at the same instant;
+// every open that succeeds writes a key of its own. Whichever of them created the bucket, what was acknowledged
+// through a handle that OpenBucket returned must be there: through the other handles, and after everything was
+// closed and the bucket is opened again. (An open that fails is not judged: the statement does not pin it.)
+func ColdCreateStorm(tmp string, disk bool, goroutines, rounds int, r *rng.R) (ops int, problems []string) {
+	ctx := context.Background()
+	var mu sync.Mutex
+	add := func(s string) { mu.Lock(); problems = append(problems, s); mu.Unlock() }
+	for round := 0; round < rounds && len(problems) == 0; round++ {
+		name := fmt.Sprintf("cc%d_%d", os.Getpid(), stormSerial.Add(1))
+		url, dir := rosmar.InMemoryURL, ""
+		if disk {
+			dir = filepath.Join(tmp, name)
+			url = "rosmar://" + dir
+		}
+		start := make(chan struct{})
+		handles := make([]*rosmar.Bucket, goroutines)
+		acked := make([]bool, goroutines)
+		var wg sync.WaitGroup
+		for g := 0; g < goroutines; g++ {
+			wg.Add(1)
+			go func(g int) {
+				defer wg.Done()
+				defer func() {
+					if p := recover(); p != nil {
+						add(fmt.Sprintf("panic|goroutine %d panicked: %v", g, p))
+					}
+				}()
+				<-start
+				b, err := rosmar.OpenBucket(url, name, rosmar.CreateOrOpen)
+				if err != nil {
+					return
+				}
+				handles[g] = b
+				if safeSet(dsOf(b), fmt.Sprintf("g%d", g), "v") == nil {
+					acked[g] = true
+				}
+			}(g)
+		}
+		close(start)
+		wg.Wait()
+		ops += goroutines
+		nOpen, nAcked := 0, 0
+		var any *rosmar.Bucket
+		for g, h := range handles {
+			if h != nil {
+				nOpen++
+				any = h
+			}
+			if acked[g] {
+				nAcked++
+			}
+		}
+		if any != nil {
+			for g := range handles {
+				if !acked[g] {
+					continue
+				}
+				if v, err := safeGet(dsOf(any), fmt.Sprintf("g%d", g)); err != nil || v != "v" {
+					add(fmt.Sprintf("shared-store|%d goroutines created / opened a new %s bucket at once (%d succeeded); a key written and acknowledged through one handle is not readable through another: %q %v", goroutines, ifs(disk, "on-disk", "in-memory"), nOpen, v, err))
+					break
+				}
+			}
+		}
+		for _, h := range handles {
+			if h != nil {
+				h.Close(ctx)
+				ops++
+			}
+		}
+		if nAcked > 0 {
+			mode := rosmar.OpenMode(rosmar.ReOpenExisting)
+			if !disk {
+				mode = rosmar.OpenMode(rosmar.CreateOrOpen)
+			}
+			b, err := rosmar.OpenBucket(url, name, mode)
+			if err != nil {
+				add(fmt.Sprintf("reopen|%d goroutines created / opened a new %s bucket at once, %d of them succeeded and %d writes were acknowledged; after all handles were closed the bucket cannot be opened again: %v", goroutines, ifs(disk, "on-disk", "in-memory"), nOpen, nAcked, err))
+			} else {
+				for g := range handles {
+					if !acked[g] {
+						continue
+					}
+					if v, err := safeGet(dsOf(b), fmt.Sprintf("g%d", g)); err != nil || v != "v" {
+						add(fmt.Sprintf("data|after a concurrent first creation of a %s bucket an acknowledged write is gone on reopen: %q %v", ifs(disk, "on-disk", "in-memory"), v, err))
+						break
+					}
+				}
+				func() { defer func() { _ = recover() }(); _ = b.CloseAndDelete(ctx) }()
+			}
+		}
+		if dir != "" {
+			_ = os.RemoveAll(dir)
+		}
+	}
+	return
+}
